@@ -69,6 +69,12 @@ def _observe_ticks(d0, d1, m, pre, rec):
                 s.nice(m)
             elif call == "copy":
                 s = s.copy()
+            elif call == "sibling":
+                # a copy with ANOTHER domain is asked for ticks with the same count first; the original is observed
+                z = s.copy()
+                z.domain([d0 * 0.5 + (d1 - d0) * 0.31, d0 * 0.5 + (d1 - d0) * 0.43])
+                list(z.ticks(m))
+                z.tickFormat(m)
             elif call.startswith("ticks_o:"):        # ticks / formatter asked for ANOTHER count earlier
                 list(s.ticks(int(call[8:])))
             elif call.startswith("format_o:"):
@@ -420,7 +426,7 @@ def main():
             if rng.random() < 0.4:
                 pre = rng.choice([["ticks", "nice"], ["nice"], ["ticks", "format", "nice"], ["copy", "nice"], ["ticks", "redomain"],
                                   ["ticks", "nice", "copy"], ["ticks_o:2"], ["ticks_o:1", "format_o:100"], ["ticks_o:100", "nice"],
-                                  ["format_o:3", "ticks_o:2", "copy"], ["ticks_o:2", "redomain"]])
+                                  ["format_o:3", "ticks_o:2", "copy"], ["ticks_o:2", "redomain"], ["sibling"], ["ticks", "sibling"], ["sibling", "nice"]])
                 r = ticks_record(d0, d1, m, pre=pre)
                 if r is not None:
                     r["m"] = mm
